@@ -466,7 +466,7 @@ def methods(draw, u, it, name):
             ty = draw(input_types(u, lt_pool))
         params.append([pnames[i], ty, []])
     # return
-    rk = draw(st.sampled_from(["none", "plain", "plain", "plain", "result", "write", "resultwrite"] + (["optunit", "optunitwrite"] if p.get("opt_unit", True) and p["option"] else [])))
+    rk = draw(st.sampled_from(["none", "plain", "plain", "plain", "result", "write", "resultwrite"] + (["optunit", "optunitwrite"] if p.get("opt_unit", True) else [])))
     if not p.get("results", True) and rk in ("result", "resultwrite"):
         rk = "plain"
     if not p.get("write", True) and rk in ("write", "resultwrite", "optunitwrite"):
